@@ -402,14 +402,30 @@ def abs_transform(stmts, var: str, shape: Tuple[str, ...], value_expr: ast.expr)
     return ev(value_expr)
 
 
+def frame_writer_funcs(repo) -> List[FuncInfo]:
+    """save_time_step and the DataHandler methods it calls (transitively)."""
+    dh = repo.cls(RUNNER, "DataHandler")
+    out = [dh.methods["save_time_step"]]
+    i = 0
+    while i < len(out):
+        for n in ast.walk(out[i].node):
+            if isinstance(n, ast.Call) and isinstance(n.func, ast.Attribute) and isinstance(n.func.value, ast.Name) \
+                    and n.func.value.id == "self" and n.func.attr in dh.methods and dh.methods[n.func.attr] not in out:
+                out.append(dh.methods[n.func.attr])
+        i += 1
+    return out
+
+
 def ranks(ctx):
     repo = ctx.repo
-    fw = repo.func(RUNNER, "DataHandler.save_time_step")
     fr = repo.func(DATA, "DynamicsData.from_hdf5")
     # writer: the loop over running_state.items()
-    loops = [n for n in own_nodes(fw.node) if isinstance(n, ast.For) and norm(n.iter) == "running_state.items()"]
-    if len(loops) != 1 or not isinstance(loops[0].target, ast.Tuple):
-        raise AnalysisError("save_time_step no longer iterates running_state.items()")
+    cands = [(f, n) for f in frame_writer_funcs(repo) for n in own_nodes(f.node)
+             if isinstance(n, ast.For) and norm(n.iter) == "running_state.items()"]
+    if len(cands) != 1 or not isinstance(cands[0][1].target, ast.Tuple):
+        raise AnalysisError("the frame writer no longer iterates running_state.items()")
+    fw = cands[0][0]
+    loops = [cands[0][1]]
     lp = loops[0]
     var = lp.target.elts[1].id
     stores = [s for s in lp.body if isinstance(s, ast.Assign) and isinstance(s.targets[0], ast.Subscript)
